@@ -499,20 +499,6 @@ impl<'a> G<'a> {
     }
 }
 
-fn members_of(items: &[Item], idx: usize) -> Vec<String> {
-    match &items[idx].kind {
-        ItemK::Fb { inputs, outputs, locals, methods, .. } => inputs
-            .iter()
-            .chain(outputs)
-            .chain(locals)
-            .map(|v| norm(&v.name))
-            .chain(methods.iter().map(|m| norm(&m.name)))
-            .collect(),
-        ItemK::Struct { fields } => fields.iter().map(|f| norm(f)).collect(),
-        _ => Vec::new(),
-    }
-}
-
 pub fn gen_project(rng: &mut Rng) -> Project {
     let variants = rng.chance(1, 2);
     let mut g = G { rng, variants, used_root: BTreeSet::new() };
@@ -555,20 +541,9 @@ pub fn gen_project(rng: &mut Rng) -> Project {
             } else {
                 Ty::Int
             };
-            // a variable must not be named like a member of its own type (use-site target quirk, see report)
-            let mut name;
-            let mut tries = 0;
-            loop {
-                name = g.local_name(taken, prefer);
-                let bad = match &ty {
-                    Ty::Named(t, _) => members_of(items, *t).contains(&norm(&name)),
-                    Ty::Int => false,
-                };
-                if !bad || tries > 20 {
-                    break;
-                }
-                tries += 1;
-            }
+            // (a variable may be named like a member of its own type: at the base of `v.m` the real target
+            // resolution then picks the member, which the model mirrors in `target`)
+            let name = g.local_name(taken, prefer);
             out.push(VarD { name, ty, init: g.rng.range(0, 9) });
         }
         out
@@ -1428,6 +1403,12 @@ fn new_names(rng: &mut Rng, rd: &Rendered, o: &OccR, fresh_ctr: &mut u32) -> Vec
             14 => o.name.clone(),
             15 => rng.pick(&rd.occs).name.clone(),
             16 => "ABS".to_string(),
+            // a dotted path whose last segment is the old name (the namespace-move entry of `rename`)
+            17 => match rng.below(3) {
+                0 => format!("Ns.{}", o.name),
+                1 => format!("{}.{}", rng.pick(&rd.decls).name, o.name),
+                _ => format!("A.B.{}", case_variant(rng, &o.name)),
+            },
             _ => rng.pick(BAD_NAMES).to_string(),
         };
         if !v.contains(&name) {
